@@ -63,6 +63,7 @@ class Profile(object):
         self.p_ext_implied = 0.08
         self.p_reconstrain = 0.3     # constraint on a type reference
         self.p_big_size = 0.05
+        self.p_components_of = 0.0
         self.tag_defaults = [None, 'AUTOMATIC', 'AUTOMATIC', 'IMPLICIT', 'EXPLICIT']
         self.high_tags = False
         self.default_kinds = {'BOOLEAN', 'INTEGER', 'ENUMERATED', 'BIT STRING', 'OCTET STRING',
@@ -496,6 +497,8 @@ class Gen(object):
         for i in range(n):
             comps.append(self.gen_comp(used, depth, choice, first=(i == 0)))
         t.comps = comps
+        if not choice and rnd.random() < p.p_components_of:
+            self.add_components_of(t, used)
         ext = rnd.random() < p.p_ext
         if ext:
             self.feat('ext_marker_' + t.kind)
@@ -518,6 +521,60 @@ class Gen(object):
                 t.ext_end = True
         if choice and not t.comps:
             t.comps = [self.gen_comp(used, depth, True, first=True)]
+
+    def add_components_of(self, t, used):
+        """COMPONENTS OF <earlier SEQUENCE/SET type of the same kind>: the root
+        components are copied into my AST (that is the X.680 meaning) and marked
+        so that the printer writes the COMPONENTS OF notation."""
+        import copy
+        rnd = self.rnd
+        cands = []
+        for mi, nm in self.type_pool:
+            m = self.specobj.modules[mi]
+            a = m.find(nm)
+            src = a.t
+            if src.kind != t.kind or src.tag is not None or not src.comps or src.comps2:
+                continue
+            if mi != self.cur_index:
+                if m.tags != self.cur.tags or m.ext_implied != self.cur.ext_implied:
+                    continue
+                if any(self._has_ref_or_tag(c.t) for c in src.comps):
+                    continue
+            if any(c.cof is not None for c in src.comps):
+                continue
+            if any(c.name in used for c in src.comps):
+                continue
+            cands.append((mi, nm, src))
+        if not cands:
+            return
+        mi, nm, src = rnd.choice(cands)
+        self.counter += 1
+        gid = (nm, self.counter)
+        new = []
+        for c in src.comps:
+            cc = copy.deepcopy(c)
+            cc.cof = gid
+            used.add(cc.name)
+            new.append(cc)
+        pos = rnd.randint(0, len(t.comps))
+        t.comps[pos:pos] = new
+        if mi != self.cur_index:
+            self.imports_needed.setdefault(self.specobj.modules[mi].name, set()).add(nm)
+            self.feat('components_of_imported')
+        self.feat('components_of')
+
+    def _has_ref_or_tag(self, t):
+        if t.kind == 'REF' or t.tag is not None:
+            return True
+        if t.rng is not None and (t.rng.lo_txt or t.rng.hi_txt):
+            return True
+        if t.size is not None and (t.size.lo_txt or t.size.hi_txt):
+            return True
+        if t.kind in ('SEQUENCE', 'SET', 'CHOICE'):
+            return any(self._has_ref_or_tag(c.t) for c in all_comps(t))
+        if t.kind in ('SEQUENCE OF', 'SET OF'):
+            return self._has_ref_or_tag(t.elem)
+        return False
 
     def gen_comp(self, used, depth, choice, first=False, addition=False):
         rnd, p = self.rnd, self.p
@@ -654,6 +711,8 @@ class Gen(object):
             nums = sorted(rnd.sample([0, 5, 30, 31, 127, 128, 16383, 16384, 2 ** 21, 2 ** 28, 7, 9], len(comps))) \
                 if len(comps) <= 12 else nums
         partial = rnd.random() < 0.25
+        if any(c.cof is not None for c in comps):
+            return
         for c, n in zip(comps, nums):
             if partial and rnd.random() < 0.5:
                 continue
@@ -713,6 +772,7 @@ class Gen(object):
                             for i, c in enumerate(all_comps(node)):
                                 mode = None
                                 c.t.tag = Tag(CONTEXT, i, mode)
+                                c.cof = None      # written inline (tags cannot be put on COMPONENTS OF)
                             self.feat('tags_forced_distinct')
                             changed = True
             if not changed:
